@@ -94,7 +94,7 @@ def job(args):
     t0 = time.time()
     S = run_script(desc, repo=repo)
     out = {"script": name, "props": desc["props"], "paths": S.paths, "path_ends": S.path_ends, "wall": S.wall,
-           "error": S.error, "dropped": S.dropped, "vacuity": S.vacuity,
+           "error": S.error, "dropped": S.dropped, "vacuity": S.vacuity, "executed": getattr(S, "executed", {}),
            "results": [res_dict(r, S.label) for r in S.results], "counterexamples": []}
     # clauses covered by a recorded known finding are decided by replaying the recorded witness, not by a new search
     failed = [r for r in out["results"] if r["status"] in ("failed", "unknown") and not r.get("known_id")]
@@ -338,7 +338,15 @@ def run_property(prop, tier):
             print("UNDECIDED", u[:300])
         rc = 2
     wall = time.time() - t0
-    fnames = sorted({f for o in outs for f in META.functions_of(o["script"])})
+    fexec = {}
+    for o in outs:
+        for k, v in (o.get("executed") or {}).items():
+            if "<lambda>" in k and "Audit" not in k:
+                continue
+            e = fexec.setdefault(k, {"body": 0, "callee-contract": 0})
+            e["body"] += v["body"]
+            e["callee-contract"] += v["callee-contract"]
+    fnames = sorted(f"{k}  (body executed symbolically x{v['body']}, used through its contract x{v['callee-contract']})" for k, v in fexec.items())
     if not samples and bsummary:
         samples = [s for b in bsummary for s in b["samples"]][:3]
     ev = {
